@@ -51,7 +51,7 @@ def jobs(tier):
         for kind in ("cl", "chunksize"):
             js.append(dict(name="RUN:%s:%d" % (kind, k), family="RUN", kind=kind, k=k, limits="default"))
     if tier == "thorough":
-        for j in streams.f1_jobs(SKEL, 2, per_job=3):
+        for j in streams.f1_jobs(("get11", "cl_pipe", "chunk1", "pct"), 2, per_job=3):
             j["limits"] = "sym"
             js.append(j)
     return js
